@@ -7,3 +7,10 @@ CLAIMED['C13'] = dict(
   text='Held on every execution produced: all ordered (parked update x concurrent registry op x initial population) pairs at the lookup/lock window, thousands of PRNG multi-registry histories under the race detector, and thousands of PRNG shard/subset/health/locality/visibility worlds where generator (cold and cached) and builder output equal the reference member set and locality weights. Exploration, not proof: schedules outside those produced and inputs outside the grammar are not covered.',
   note='Trusted: porcupine v1.3.0; the sequential spec map[service]map[registry]->update id; unique ids in endpoints; the reference membership function (our reading of the property incl. documented DestinationRule distribute semantics); model.Service objects from the in-memory registry stand in for real registries. Multi-network gateways, waypoints and InferencePool semantics are not driven.',
 )
+
+CLAIMED['C20'] = dict(
+  category='exploration',
+  technique='runtime monitoring / differential oracle: the real iptables configurator is run on PRNG-stratified capture configs, the iptables-restore text it emits is executed by a reference netfilter interpreter over boundary-value packets, and every packet fate is compared with a reference capture policy written from the property; v4/v6 parity on mirrored configs',
+  text='Held (up to the listed known finding) on every (config, packet) pair explored: 54 strata of REDIRECT/TPROXY x DNS x dual-stack x owner-group filters x include/exclude lists, thousands of configs, tens of millions of packets in thorough. Unknown rule syntax aborts a case as inconclusive, never passes silently. Exploration only: reconcile/cleanup paths, nftables backend and pre-existing rules are not driven.',
+  note='Trusted: the reference netfilter interpreter (hook order, REDIRECT re-entry over lo, owner/mark/conntrack semantics) and the reference policy; packet classes on which the property is silent (proxy->pod over lo, 127.0.0.6 source, tunnel port 15008, INVALID state under drop-invalid, conflicting include+exclude of one port/gid) are unspecified and only checked for v4/v6 parity. One known finding (app TCP/53 to self over lo with DNS capture) is listed in known-findings.txt.',
+)
